@@ -433,6 +433,7 @@ def run(fx, tier):
                         key='C16:R-FLOW:%s::%s:verdict-lost' % (g.cls, g.n), where='%s:%s' % (g.path_file(), blk0.lines[i0]))
     if n_verdict < 3 and not v.violations:
         raise AnalysisBroken('lost-verdict rule: only %d stored validator verdicts found' % n_verdict)
+    validation_loops_total_rule(fx, v, OPS16)
 
     # Value ranges — decided on the branch structure of the validators: the comparisons of the value with constants taken
     # on each path are evaluated at the boundary points; the points that reach the success outcome / an error outcome
@@ -819,3 +820,95 @@ def whole_argument_size_rules(fx, v, prop='C16'):
                 key='%s:R-TABLE:%s:whole-argument-size' % (prop, g.n), where=g.file)
     if n_whole < 3:
         raise AnalysisBroken('whole-argument size rule: only %d validator bodies found' % n_whole)
+
+
+def validation_loops_total_rule(fx, v, classes, prop='C16'):
+    """a list argument (topics, user properties) is well-formed only if EVERY element is: a loop whose body asks a validator
+    leaves early only by returning an error (or by `break` right after storing one that is returned after the loop) - no bare
+    `break`, no return of success from inside the body - so no element after the first goes unexamined."""
+    n = 0
+    seen = set()
+
+    def is_err(e):
+        return isinstance(e, dict) and contains(e, lambda m: m.get('k') == 'ref' and m.get('dk') == 'enum' and m.get('n') not in ('success', 'valid'))
+    for g in fx.fns:
+        if g.cls not in classes or g.lam or not g.blocks:
+            continue
+        sig = (g.cls, g.n, g.tag, g.tu)
+        if sig in seen:
+            continue
+        seen.add(sig)
+        heads = [b for b, blk in g.blocks.items() if blk.term and blk.term.get('cls') in ('CXXForRangeStmt', 'ForStmt', 'WhileStmt')]
+        preds = g.preds()
+        for h in heads:
+            succ = g.blocks[h].succ
+            if len(succ) != 2 or succ[0] is None:
+                continue
+            body0, exitb = succ
+
+            def reach(start, stop):
+                out, st = set(), [start]
+                while st:
+                    b = st.pop()
+                    if b in out or b == stop or b is None:
+                        continue
+                    out.add(b)
+                    st.extend(s_ for s_ in g.succs(b) if s_ is not None)
+                return out
+            after = reach(exitb, h) if exitb is not None else set()
+            body = reach(body0, h) - after
+            asks = any(isinstance(g.resolve(x), dict) and contains(g.resolve(x), lambda m: m.get('k') == 'call' and (
+                str(callee_name(m)).startswith('validate') or str(callee_name(m)).startswith('is_valid')))
+                for b in body for x in g.blocks[b].elems)
+            if not asks:
+                continue
+            n += 1
+            v.saw(g)
+            bad = None
+
+            def edge_truth_of_var(b, var):
+                """is block b entered (from inside the body) only on an edge where `var` (an error_code) is set?"""
+                ok_all = False
+                for p_ in preds.get(b, []):
+                    if p_ not in body:
+                        continue
+                    blk = g.blocks[p_]
+                    if len(blk.succ) != 2 or not blk.elems:
+                        return False
+                    last, pol = g.resolve(blk.elems[-1]), (b == blk.succ[0])
+                    for _ in range(3):
+                        if isinstance(last, dict) and last.get('k') == 'un' and last.get('op') == '!':
+                            last, pol = g.resolve(last.get('e')), not pol
+                        elif isinstance(last, dict) and last.get('k') in ('icast', 'cast'):
+                            last = g.resolve(last.get('e'))
+                        else:
+                            break
+                    if not (isinstance(last, dict) and last.get('k') == 'call' and callee_name(last) == 'operator bool' and pol
+                            and contains(last, lambda m: m.get('k') == 'ref' and m.get('d') == var)):
+                        return False
+                    ok_all = True
+                return ok_all
+            for b in sorted(body):
+                blk = g.blocks[b]
+                rets = [x for x in blk.elems if isinstance(x, dict) and x.get('k') == 'ret']
+                if rets:
+                    e = g.resolve(rets[0].get('e')) if rets[0].get('e') is not None else None
+                    var = [m.get('d') for m in Expr.walk(e if isinstance(e, dict) else {}) if m.get('k') == 'ref' and m.get('dk') in ('local', 'param')]
+                    if not (is_err(e) or (var and edge_truth_of_var(b, var[0]))):
+                        bad = 'success (or an unexamined value) is returned from inside the loop at line %s' % (blk.lines[-1] if blk.lines else '?')
+                    continue
+                for s_ in g.succs(b):
+                    if s_ is None or s_ in body or s_ == h:
+                        continue
+                    # a `break`: fine only right after an error was stored
+                    stored = any(isinstance(x, dict) and ((x.get('k') == 'assign' and is_err(g.resolve(x.get('r')))) or
+                                 (x.get('k') == 'call' and x.get('op') == '=' and is_err(g.resolve(x))))
+                                 for x in (g.resolve(y) for y in blk.elems))
+                    if not stored:
+                        bad = 'the loop is left by `break` at line %s without an error: the remaining elements are not examined' % (
+                            blk.lines[-1] if blk.lines else (g.blocks[s_].lines[0] if g.blocks[s_].lines else '?'))
+            v.check(bad is None, 'R-FLOW', '%s::%s:validation-loop@B%d [%s]' % (g.cls, g.n, h, g.tu),
+                    'every element is examined: the loop is left early only by returning an error' if bad is None else bad,
+                    key=prop + ':R-FLOW:%s::%s:validation-loop-total' % (g.cls, g.n), where=g.file)
+    if n < 3 and not v.violations:
+        raise AnalysisBroken('validation loops: only %d found' % n)
